@@ -424,6 +424,10 @@ def gen_buffer_case(seed, depth=10):
     cold_cap = rng.choice([30, 60, 100])
     ops = []
     n = rng.randint(2, depth)
+    if rng.random() < 0.4:
+        # park one to three observations of different sizes in cold storage first
+        for _ in range(rng.randint(1, 3)):
+            ops += [['ingest', rng.randint(1, hot_rate), rng.randint(1, 6)], ['settle'], ['h2c'], ['settle']]
     for _ in range(n):
         k = rng.choices(['ingest', 'h2c', 'c2h', 'advance', 'settle', 'process', 'finish', 'overrate', 'check'],
                         [22, 18, 16, 14, 12, 6, 5, 4, 3])[0]
@@ -479,7 +483,7 @@ class BufferMachine(object):
             self.streams[rec] = dict(obs=o.name, n=0)
         elif rec.name in ('move_hot_to_cold', 'move_cold_to_hot'):
             self.moves[rec] = dict(dir='h2c' if rec.name == 'move_hot_to_cold' else 'c2h', steps=0, obs=None,
-                                   started=False, left=None, prev=None)
+                                   started=False, left=None, prev=None, size=getattr(self, '_next_move_size', None))
 
     def on_resume(self, rec):
         if rec in self.streams:
@@ -543,6 +547,31 @@ class BufferMachine(object):
         while q and q[0][0] == env.now and q[0][1] < 1:
             env.step()
 
+    def quiescent_tiers(self, where):
+        """No stream and no move in flight: every observation that holds data is listed in exactly one
+        tier, both transfer slots are clear, and each tier's used space is the data of what it lists."""
+        if self.inflight() or any(not r.proc.triggered for r in self.streams):
+            return
+        if any(r.proc.triggered and not r.proc.ok for r in self.moves):
+            return          # a move raised: reported by the move check itself
+        res = self.res
+        L = self.lists()
+        for n, o in self.objs.items():
+            if n in self.freed or not o.total_data_size:
+                continue
+            places = (L['hs'] + L['hsch']).count(n) + L['cs'].count(n)
+            if places != 1:
+                res.viol('C18', 'not_in_exactly_one_tier', '%s: %s is listed in %d places: %s' % (where, n, places, L),
+                         site='quiescent')
+        if L['ht'] is not None or L['ct'] is not None:
+            res.viol('C18', 'transfer_slot_not_cleared', '%s: %s' % (where, L), site='quiescent')
+        hot_used = sum(self.objs[n].total_data_size for n in L['hs'] + L['hsch'] if n in self.objs)
+        cold_used = sum(self.objs[n].total_data_size for n in L['cs'] if n in self.objs)
+        if abs((self.hcap - self.hot.current_capacity) - hot_used) > EPS or abs((self.ccap - self.cold.current_capacity) - cold_used) > EPS:
+            res.viol('C18', 'tier_space_vs_listed_observations', '%s: hot used %s, listed %s; cold used %s, listed %s' % (
+                where, self.hcap - self.hot.current_capacity, hot_used, self.ccap - self.cold.current_capacity, cold_used),
+                site='quiescent')
+
     def snapshot(self):
         return (self.hot.current_capacity, self.cold.current_capacity, json.dumps(self.lists(), sort_keys=True),
                 tuple(sorted((n, o.total_data_size) for n, o in self.objs.items())))
@@ -554,6 +583,14 @@ class BufferMachine(object):
                 self.do(op, i)
                 if any(v['prop'] != 'C19' for v in self.res.violations):
                     break
+        if not any(v['prop'] != 'C19' for v in self.res.violations):
+            self.in_op = False
+            try:
+                self.wait_streams()
+                self.wait_moves()
+                self.quiescent_tiers('end')
+            except RuntimeError:
+                pass
         self.res.T = self.env.now
         self.res.digest = self.env.digest()
         return self.res
@@ -584,6 +621,7 @@ class BufferMachine(object):
                 self.in_op = False
                 self.wait_streams()
                 self.wait_moves()
+                self.quiescent_tiers('settle %d' % i)
                 return
             if k in ('ingest', 'overrate'):
                 rate, dur = op[1], op[2]
@@ -669,6 +707,9 @@ class BufferMachine(object):
                     # Buffer.run never starts a cold->hot move into space that is owed to a streaming ingest
                     owed = sum(self.objs[s_['obs']].ingest_data_rate * (self.objs[s_['obs']].duration - s_['n'])
                                for r_, s_ in self.streams.items() if not r_.proc.triggered)
+                    # ... or to another cold->hot move that is still in flight (conservatively: its whole size)
+                    owed += sum(m_.get('size') or 0 for r_, m_ in self.moves.items()
+                                if not r_.proc.triggered and m_['dir'] == 'c2h')
                     if self.hot.current_capacity - owed - size < 0:
                         res.probes['move_skipped_space_owed'] += 1
                         self.in_op = False
@@ -677,6 +718,7 @@ class BufferMachine(object):
                 sfree0 = src.current_capacity
                 room = dst.has_capacity_for(size)
                 gen = buf.move_hot_to_cold(0) if k == 'h2c' else buf.move_cold_to_hot(0)
+                self._next_move_size = size
                 if conc:
                     res.probes['concurrent_move'] += 1
                     self.in_op = False
